@@ -733,6 +733,7 @@ fn merge_res(r: Result<(), MergeError>) -> &'static str {
 }
 
 struct Hist {
+    take_agrees: bool,
     steps: Vec<String>,
     all_ok: bool,
     fin: Option<ServerInfo>,
@@ -782,7 +783,10 @@ fn run_hist(parsed: &[PartialServerInfo], ops: &[Op]) -> Hist {
         partial_txt(&st)
     );
     let fin = st.clone().get_info().cloned();
-    Hist { steps, all_ok, fin, recv, text }
+    // take_info hands out what get_info shows (checked on a copy of the final state)
+    let taken = st.clone().take_info();
+    let take_agrees = match (&fin, &taken) { (Some(a), Some(b)) => format!("{:?}", a) == format!("{:?}", b), (None, None) => true, _ => false };
+    Hist { steps, all_ok, fin, recv, text, take_agrees }
 }
 
 fn parse_parts(ps: &[Part]) -> Option<Vec<PartialServerInfo>> {
@@ -925,6 +929,7 @@ fn check_history(o: &mut Out, m: &Multi, parsed: &[PartialServerInfo], ops: &[Op
     o.check(h.fin.is_some() == want_complete, class, id, || {
         format!("order {}: parts {:?} carry {} of {} announced clients but get_info is {}", ops_txt(ops), set, got, announced, if h.fin.is_some() { "Some" } else { "None" })
     });
+    o.check(h.take_agrees, class, id, || format!("order {}: take_info on the final state does not hand out what get_info shows (get_info is {})", ops_txt(ops), if h.fin.is_some() { "Some" } else { "None" }));
     if let Some(i) = &h.fin {
         let exp = expected_clients(parsed, &set);
         let have: Vec<String> = i.clients.iter().map(client_txt).collect();
